@@ -1,6 +1,6 @@
 (* Sse.v — executable model of src/x86/sse.rs (SseHash) and src/x86/v2x64u.rs, function by function. *)
 From Coq Require Import NArith List Lia Bool Arith.
-From HW Require Import Word Chunks Packet Mem X86 Portable.
+From HW Require Import Word Chunks Packet Mem Stream X86 Portable.
 Import ListNotations.
 Local Open Scope N_scope.
 
@@ -140,32 +140,14 @@ Definition s_data_to_lanes (packet : mem) : res (V128 * V128) :=
   do packetH <- mm_loadu_si128 packet 16 ;;
   Ok (packetH, packetL).
 
-Fixpoint s_absorb_chunks (c : score) (addr : N) (ps : list (list N)) : res score :=
-  match ps with
-  | [] => Ok c
-  | chunk :: ps =>
-      do p <- s_data_to_lanes {| mbytes := chunk; maddr := addr |} ;;
-      s_absorb_chunks (s_update c (fst p) (snd p)) (addr + 32) ps
-  end.
+(* update(data_to_lanes(packet)) *)
+Definition s_step (c : score) (packet : mem) : res score :=
+  do p <- s_data_to_lanes packet ;; Ok (s_update c (fst p) (snd p)).
 
-(* sse.rs: append; [addr] is the address of data *)
+(* sse.rs: append — the shared text of Stream.v *)
 Definition s_append (prof : profile) (addr : N) (s : sstate) (data : list N) : res sstate :=
-  if is_empty (s_buffer s) then
-    let '(ps, r) := chunks32 data in
-    do c <- s_absorb_chunks (s_core s) addr ps ;;
-    do b <- set_to prof (s_buffer s) r ;;
-    Ok {| s_core := c; s_buffer := b |}
-  else
-    match fill (s_buffer s) data with
-    | (b, None) => Ok {| s_core := s_core s; s_buffer := b |}
-    | (b, Some tail) =>
-        do p <- s_data_to_lanes (self_buf S_BUF_ADDR (inner b)) ;;
-        let c := s_update (s_core s) (fst p) (snd p) in
-        let '(ps, r) := chunks32 tail in
-        do c <- s_absorb_chunks c (addr + N.of_nat (length data - length tail)) ps ;;
-        do b' <- set_to prof b r ;;
-        Ok {| s_core := c; s_buffer := b' |}
-    end.
+  do r <- g_append s_step S_BUF_ADDR prof addr (s_core s) (s_buffer s) data ;;
+  Ok {| s_core := fst r; s_buffer := snd r |}.
 
 Definition s_pre_finalize (prof : profile) (s : sstate) : res score :=
   if negb (is_empty (s_buffer s)) then s_update_remainder prof s else Ok (s_core s).
